@@ -376,6 +376,13 @@ func (a *List) M__eq__(other Object) (Object, error) {
 	if len(a.Items) != len(b.Items) {
 		return False, nil
 	}
+	if a == b {
+		return True, nil
+	}
+	if err := compareEnter(); err != nil {
+		return nil, err
+	}
+	defer compareLeave()
 	for i := range a.Items {
 		eq, err := Eq(a.Items[i], b.Items[i])
 		if err != nil {
@@ -396,6 +403,13 @@ func (a *List) M__ne__(other Object) (Object, error) {
 	if len(a.Items) != len(b.Items) {
 		return True, nil
 	}
+	if a == b {
+		return False, nil
+	}
+	if err := compareEnter(); err != nil {
+		return nil, err
+	}
+	defer compareLeave()
 	for i := range a.Items {
 		eq, err := Eq(a.Items[i], b.Items[i])
 		if err != nil {
